@@ -367,7 +367,14 @@ impl<'lifespan: 'transient, 'transient, 'outer: 'lifespan> IsotopicDistribution<
     ) -> IsotopicDistribution<'lifespan, 'outer> {
         let order: NumPeaksSpec = order.into();
         let order = order.num_peaks(&composition);
+        Self::fill_with_order(composition, order + 1)
+    }
 
+    /// Build the distribution for an already resolved `order` (the number of peaks less one).
+    fn fill_with_order(
+        composition: ChemicalComposition<'outer>,
+        order: i32,
+    ) -> IsotopicDistribution<'lifespan, 'outer> {
         let mut inst = IsotopicDistribution {
             constants: IsotopicConstants::new(composition.len()),
             max_variants: max_variants(&composition),
@@ -379,7 +386,7 @@ impl<'lifespan: 'transient, 'transient, 'outer: 'lifespan> IsotopicDistribution<
                 intensity: 0.0,
             },
         };
-        inst.update_order(order + 1);
+        inst.update_order(order);
         inst.monoisotopic_peak = inst.make_monoisotopic_peak();
         inst
     }
@@ -617,7 +624,8 @@ pub fn isotopic_variants<'a, C: Into<ChemicalComposition<'a>>>(
     let composition = composition.into();
     let npeaks = npeaks.into().num_peaks(&composition);
 
-    let dist = IsotopicDistribution::from_composition(composition, npeaks);
+    let mut dist = IsotopicDistribution::fill_with_order(composition, npeaks);
+    dist.populate_constants();
     dist.isotopic_variants(charge, charge_carrier)
 }
 
@@ -715,7 +723,7 @@ impl<'lifespan, 'outer: 'lifespan> BafflingRecursiveIsotopicPatternGenerator<'li
     ) -> PeakList {
         let composition = composition.into();
         let npeaks = npeaks.into().num_peaks(&composition);
-        let mut dist = IsotopicDistribution::fill_from_composition(composition, npeaks);
+        let mut dist = IsotopicDistribution::fill_with_order(composition, npeaks);
         dist.populate_constants_from_cache(&mut self.parameter_cache);
         let peaks = dist.isotopic_variants(charge, charge_carrier);
         self.parameter_cache.receive_from(dist.constants);
